@@ -832,3 +832,65 @@ func init() {
 		return Tuple{r[0], r[1]}
 	}
 }
+
+// ---- net/textproto.CanonicalMIMEHeaderKey: branch-free model (differentially tested against the native
+// function in canon_test.go): a key made only of RFC 7230 token characters is canonicalised (first letter and
+// letters after '-' upper case, the rest lower case); any other key is returned unchanged. ----
+func isTokenByte(c byte) bool {
+	switch {
+	case c >= '0' && c <= '9', c >= 'a' && c <= 'z', c >= 'A' && c <= 'Z':
+		return true
+	}
+	switch c {
+	case '!', '#', '$', '%', '&', '\'', '*', '+', '-', '.', '^', '_', '`', '|', '~':
+		return true
+	}
+	return false
+}
+
+func canonicalMIMEModel(w *Worker, s Str) Str {
+	T := w.T
+	if len(s.B) == 0 {
+		return s
+	}
+	tbl := make([]*Term, 256)
+	for i := range tbl {
+		tbl[i] = T.BoolC(isTokenByte(byte(i)))
+	}
+	valid := T.True
+	for _, b := range s.B {
+		var v *Term
+		if b.IsConst() {
+			v = T.BoolC(isTokenByte(byte(b.Val)))
+		} else {
+			// membership as a disjunction of ranges (cheaper for the solver than a 256-way mux)
+			in := func(lo, hi byte) *Term {
+				return T.And(T.Bin(OpULe, T.Const(8, uint64(lo)), b), T.Bin(OpULe, b, T.Const(8, uint64(hi))))
+			}
+			v = T.Or(T.Or(in('0', '9'), in('a', 'z')), in('A', 'Z'))
+			for _, c := range []byte("!#$%&'*+-.^_`|~") {
+				v = T.Or(v, T.Eq(b, T.Const(8, uint64(c))))
+			}
+		}
+		valid = T.And(valid, v)
+	}
+	out := make([]*Term, len(s.B))
+	upper := T.True
+	for i, b := range s.B {
+		isLower := T.And(T.Bin(OpULe, T.Const(8, 'a'), b), T.Bin(OpULe, b, T.Const(8, 'z')))
+		isUpper := T.And(T.Bin(OpULe, T.Const(8, 'A'), b), T.Bin(OpULe, b, T.Const(8, 'Z')))
+		up := T.Ite(isLower, T.Bin(OpSub, b, T.Const(8, 32)), b)
+		lo := T.Ite(isUpper, T.Bin(OpAdd, b, T.Const(8, 32)), b)
+		c := T.Ite(upper, up, lo)
+		out[i] = T.Ite(valid, c, b)
+		upper = T.Eq(b, T.Const(8, '-'))
+	}
+	return Str{out}
+}
+
+func init() {
+	models["net/textproto.CanonicalMIMEHeaderKey"] = func(fr *frame, a []Value) Value {
+		return canonicalMIMEModel(fr.w, a[0].(Str))
+	}
+	models["net/http.CanonicalHeaderKey"] = models["net/textproto.CanonicalMIMEHeaderKey"]
+}
